@@ -120,6 +120,10 @@ def statics(repo, work):
                     r'static[^;{}]*\b' + re.escape(base) + r'\b[^;]*;', ';', code))) or \
                           bool(re.search(r'(\+\+|--)\s*' + re.escape(base) + r'\b', code))
                 addr = bool(re.search(r'&\s*' + re.escape(base) + r'\b', code))
+                # an array decays to a pointer wherever it is mentioned: any use other than its declaration exposes its address
+                is_array = bool(re.search(r'\bstatic\b[^;{}()=]*\b' + re.escape(base) + r'\s*\[', code))
+                if is_array and len(re.findall(r'(?<![A-Za-z_0-9.>])' + re.escape(base) + r'\b', code)) > 1:
+                    addr = True
                 objs.append((unit, name, p[1], written, addr))
     return sorted(set(objs)), sorted(imports), errors
 
